@@ -154,9 +154,9 @@ def shrink_ops(ops, fails):
 
 def run(ctx):
     quick = ctx.tier == "quick"
-    n_tie = 50000 if quick else 1500000
-    n_bal = 8000 if quick else 200000
-    n_lit = 6000 if quick else 150000
+    n_tie = 30000 if quick else 600000
+    n_bal = 5000 if quick else 100000
+    n_lit = 4000 if quick else 60000
     ctx.assumptions += [
         "model: ASCII text (Rust's trim/trim_start use Unicode White_Space; its ASCII members \\t \\n \\x0b \\x0c \\r and space are modelled, non-ASCII white space is outside model and tie alphabet); buffer kept reversed; usize indent as nat; deindent underflow = panic (debug build of the harness)",
         "str::lines as in Rust >= 1.77 (split_inclusive('\\n'), strip \\n then \\r); the malformed stream of the tie exercises \\r, \\x0b, \\x0c, control and protocol metacharacters",
@@ -230,6 +230,8 @@ def run(ctx):
             if res is None:
                 panics += 1
                 continue
+            if model_p[i] == "PANIC":
+                continue    # (a mismatch, reported below) the theorems speak about runs of the model that do not panic
             if nontrivial(ops):
                 distinct.add(raw[i])
             if len(samples) < 4 and len(raw[i]) < 160:
@@ -325,7 +327,8 @@ def run(ctx):
                 fl = eng.classify([case], shards=1)[0].split(" ")
                 return fl[1] == "1" and fl[2] != "none" and res[0] != ("" if fl[2] == "\\e" else g.dec(fl[2]))
             if kind == "indent_follows_braces":
-                if has_append(ops) or st_indent(ops, res) is None: return False
+                if has_append(ops) or has_cr(ops) or st_indent(ops, res) is None: return False
+                if not all(not single_lead_ws(e[1]) for e in g.text_events(ops) if e[0] == "t"): return False
                 return eng.classify([case], shards=1)[0].split(" ")[1] == "1"
             if kind == "literal_transparent":
                 r2 = g.parse_out(eng.real1(g.show_case(g.mask_literals(ops))))
